@@ -707,6 +707,23 @@ class numa_vector {
                 p[i] = other[i];
         }
 
+        // The templated constructor above is never used as a copy
+        // constructor; without these the implicit shallow copy would be taken
+        // and the buffer deleted twice.
+        numa_vector(const numa_vector &other) : n(other.n), p(new T[n]) {
+#pragma omp parallel for
+            for(ptrdiff_t i = 0; i < static_cast<ptrdiff_t>(n); ++i)
+                p[i] = other.p[i];
+        }
+
+        numa_vector& operator=(const numa_vector &other) {
+            if (this != &other) {
+                numa_vector tmp(other);
+                swap(tmp);
+            }
+            return *this;
+        }
+
         template <class Iterator>
         numa_vector(Iterator beg, Iterator end)
             : n(std::distance(beg, end)), p(new T[n])
